@@ -431,6 +431,11 @@ def c03(tier):
              ([3, 100, 0], [-2]), ([0, 0, 3, -2], [3, -50, 1, 0, 3])]
     if tier != "quick":
         pairs += [([100, 7], [7, 100]), ([1000000, -999999, 3], []), ([5] * 9, [100, -50] * 6)]
+    # very different numbers of earlier updates (anything keyed to the total count: a periodic re-synchronisation, a counter that
+    # wraps at 2^8 / 2^16): the prefix only costs the harness, the specification sees the common suffix
+    rp = random.Random(303 + run.seed)
+    pairs += [([rp.randint(-9, 9) for _ in range(300)], [rp.randint(-9, 9) for _ in range(1100)]),
+              ([], [rp.randint(-9, 9) for _ in range(70000)])]
     # model level: the machine state is a function of the ghost window of the last K inputs (Apalache, all integers, all lengths)
     for m in ("Ind_Sma", "Ind_Ext", "Ind_MyRsi", "Ind_HL", "Ind_Count"):
         run.submit(apalache_job, m)
